@@ -452,6 +452,10 @@ pub fn run(run: &mut Run, args: &Args) {
         if matches!(ob, rt::Outcome::Err(_)) {
             run.count("exec_error");
         }
-        judge_case(run, &df_plan, &sql_plan, &[&ds, &ds2], chain.ops.len() >= 2);
+        if rt::same_outcome(&ob, &oa, chain.ordered, SchemaLevel::TypesExact).is_ok() {
+            judge_case(run, &df_plan, &sql_plan, &[&ds, &ds2], chain.ops.len() >= 2);
+        } else {
+            run.count("judge_skipped_oracle_failed");
+        }
     }
 }
